@@ -74,6 +74,8 @@ package vm
 //@ spec fun nilV(v reflect.Value) bool = nilableK(rvKind(v)) && rvIsNil(v)
 //@ spec fun eqD(v reflect.Value) reflect.Value = ite(rvKind(v) == reflect.Interface || rvKind(v) == reflect.Ptr, rvElem(v), v)
 //@ spec fun eqOther(a reflect.Value, b reflect.Value) bool
+// numStrS(v): the rendering numToString gives a number (DEFINED as its result: a function of the value)
+//@ spec fun numStrS(v reflect.Value) string
 //@ axiom eqOther-sym: forall a RV, b RV :: eqOther(a, b) == eqOther(b, a)
 //@ spec fun corePair(x reflect.Value, y reflect.Value) bool = (rvKind(x) == reflect.Int64 && rvKind(y) == reflect.Int64) || (rvKind(x) == reflect.Float64 && rvKind(y) == reflect.Float64) || (rvKind(x) == reflect.Int64 && rvKind(y) == reflect.Float64) || (rvKind(x) == reflect.Float64 && rvKind(y) == reflect.Int64) || (rvKind(x) == reflect.String && rvKind(y) == reflect.String) || (rvKind(x) == reflect.Bool && rvKind(y) == reflect.Bool)
 //@ spec fun eqCore(x reflect.Value, y reflect.Value) bool = ite(rvKind(x) == reflect.Int64 && rvKind(y) == reflect.Int64, rvInt(x) == rvInt(y), ite(rvKind(x) == reflect.String && rvKind(y) == reflect.String, rvStr(x) == rvStr(y), ite(rvKind(x) == reflect.Bool && rvKind(y) == reflect.Bool, rvBool(x) == rvBool(y), ite(corePair(x, y), feq(asF(x), asF(y)), eqOther(x, y)))))
